@@ -21,7 +21,38 @@ def _snap_any(E, r):
     d["name"] = r.name
     d["axis_names"] = list(r.axis_names)
     d["ndim"] = r.ndim
+    # derived geometry (lazily cached in the binning objects): numpy-style edges per axis, may be refused for gapped selections
+    if r.ndim == 1:
+        d["edges"] = _lst(E.attempt(lambda: r.edges))
+        d["widths"] = _lst(E.attempt(lambda: r.bin_widths))
+    else:
+        d["edges"] = [_lst(E.attempt(lambda b=b: b.numpy_bins)) for b in r._binnings]
     return d
+
+
+def _lst(v):
+    return v if isinstance(v, Raised) else v.tolist()
+
+
+def _touch(h):
+    """Read every lazily computed geometry attribute of the source (fills the binning caches)."""
+    if h.ndim == 1:
+        return [h.edges.tolist(), h.bin_widths.tolist(), h.bin_centers.tolist(), h.bins.tolist()]
+    return [[b.numpy_bins.tolist(), b.bins.tolist()] for b in h._binnings]
+
+
+def _pairs(np, e):
+    return np.asarray([[e[j], e[j + 1]] for j in range(len(e) - 1)])
+
+
+def geom_consistent(cx, bins, edges, label):
+    """edges (if available) are the bins' edges: edges[0] == bins[0][0], edges[t+1] == bins[t][1]
+    (left edges of later bins only agree up to the is_consecutive tolerance, so they are not compared exactly)."""
+    if isinstance(edges, Raised) or not bins:
+        return
+    yield f"{label}_count", len(edges) == len(bins) + 1
+    if len(edges) == len(bins) + 1:
+        yield label, z3.And([cx.t(edges[0]) == cx.t(bins[0][0])] + [cx.t(edges[t + 1]) == cx.t(bins[t][1]) for t in range(len(bins))])
 
 
 @register
@@ -47,6 +78,11 @@ class C11Index1D(Harness):
             yield "array3", dict(M=M, kind="array", n=3)
             yield "int-M2", dict(M=2, kind="int")
             yield "slice-M4", dict(M=4, kind="slice", a="sym", b="sym", step=None)
+        # source built from explicit (M, 2) bin pairs (StaticBinning) whose derived geometry was read before indexing
+        yield "slice-static-touched", dict(M=M, kind="slice", a="sym", b="sym", step=None, static=True, touch=True)
+        yield "mask-static-touched", dict(M=M, kind="mask", size=M, static=True, touch=True)
+        yield "array2-static-touched", dict(M=M, kind="array", n=2, static=True, touch=True)
+        yield "slice-touched", dict(M=M, kind="slice", a="sym", b="sym", step=None, touch=True)
         yield "select-axis1", dict(M=M, kind="select_bad_axis")
         yield "select-all", dict(M=M, kind="select_all")
 
@@ -82,7 +118,10 @@ class C11Index1D(Harness):
     def drive(self, E, p, x):
         np = E.np
         H1 = E.mod("physt.histogram1d").Histogram1D
-        h = H1(np.asarray(x["e"]), np.asarray(x["f"], dtype=int), np.asarray(x["q"], dtype=int), underflow=x["u"], overflow=x["o"], name="n", axis_name="ax")
+        b = _pairs(np, x["e"]) if p.get("static") else np.asarray(x["e"])
+        h = H1(b, np.asarray(x["f"], dtype=int), np.asarray(x["q"], dtype=int), underflow=x["u"], overflow=x["o"], name="n", axis_name="ax")
+        if p.get("touch"):
+            _touch(h)
         if p["kind"] == "select_bad_axis":
             r = E.attempt(h.select, 1, 0)
         elif p["kind"] == "select_all":
@@ -169,6 +208,11 @@ class C11Index1D(Harness):
             yield f"bins[{t}]", z3.And(cx.t(res["bins"][t][0]) == e[j], cx.t(res["bins"][t][1]) == e[j + 1])
             yield f"content[{t}]", cx.eq(res["freq"][t], f[j])
             yield f"err2[{t}]", cx.eq(res["err2"][t], q[j])
+        yield from geom_consistent(cx, res["bins"], res["edges"], "edges_match_bins")
+        if not isinstance(res["widths"], Raised) and len(res["widths"]) == len(sel):
+            yield "widths_match_bins", z3.And([cx.t(res["widths"][t]) == e[j + 1] - e[j] for t, j in enumerate(sel)] + [z3.BoolVal(True)])
+        if contiguous and sel:
+            yield "edges_available", not isinstance(res["edges"], Raised)
         yield "meta", res["name"] == "n" and res["axis_names"] == ["ax"] and res["cls"] == "Histogram1D"
         yield "dtype", res["dtype"] == "int64" == res["fdtype"] == res["edtype"]
         if contiguous and sel:
@@ -193,6 +237,9 @@ class C11IndexND(Harness):
             yield f"nd-S2x3-{sp.replace(',', '_').replace(':', 'c')}", dict(shape=[2, 3], spec=sp)
         for sp in specs3:
             yield f"nd-S2x2x2-{sp.replace(',', '_').replace(':', 'c')}", dict(shape=[2, 2, 2], spec=sp)
+        for sp in ("s,s", ":,s", "i,s"):
+            yield f"nd-S2x3-{sp.replace(',', '_').replace(':', 'c')}-static-touched", dict(shape=[2, 3], spec=sp, static=True, touch=True)
+        yield "nd-S2x3-s_s-touched", dict(shape=[2, 3], spec="s,s", touch=True)
         yield "nd-neg-step", dict(shape=[2, 3], spec="r")
 
     def declare(self, cx, p):
@@ -216,7 +263,10 @@ class C11IndexND(Harness):
         D = len(shape)
         names = ["a", "b", "c"][:D]
         cls = nd.Histogram2D if D == 2 else nd.HistogramND
-        h = cls([np.asarray(x["e"][k]) for k in range(D)], np.asarray(nested(x["f"], shape), dtype=int), errors2=np.asarray(nested(x["q"], shape), dtype=int), axis_names=names, name="n")
+        mk = (lambda e: _pairs(np, e)) if p.get("static") else np.asarray
+        h = cls([mk(x["e"][k]) for k in range(D)], np.asarray(nested(x["f"], shape), dtype=int), errors2=np.asarray(nested(x["q"], shape), dtype=int), axis_names=names, name="n")
+        if p.get("touch"):
+            _touch(h)
         key = []
         for c, v in zip(p["spec"].split(","), x["ix"]):
             if c == "i":
@@ -292,6 +342,11 @@ class C11IndexND(Harness):
         if got_shape != kshape or res["ndim"] != len(kept):
             return
         rb = [res["bins"]] if len(kept) == 1 else res["bins"]
+        re_ = [res["edges"]] if len(kept) == 1 else res["edges"]
+        for t in range(len(kept)):
+            yield from geom_consistent(cx, rb[t], re_[t], f"edges_match_bins[{t}]")
+            if kshape[t]:
+                yield f"edges_available[{t}]", not isinstance(re_[t], Raised)
         for t, k in enumerate(kept):
             for s_, j in enumerate(sel[k]):
                 yield f"bins[{t}][{s_}]", z3.And(cx.t(rb[t][s_][0]) == e[k][j], cx.t(rb[t][s_][1]) == e[k][j + 1])
